@@ -58,3 +58,36 @@ contract(F + "Intrinsic_Function_Reference.match",
     raises={"InternalSyntaxError": {}, "*": {}},
     serves=["C16"],
 )
+
+# T8: a USE statement is recorded in the table of the scope it appears in, and nowhere else
+from pyvc.contracts import klass
+klass("ModuleUse", module="fparser.two.symbol_table", fields=dict(_name="str"))
+
+contract("proto:ModuleUse", trusted=True,
+    types=dict(name="str", only_list="any", rename_list="any"), returns="ref:ModuleUse", modifies=[],
+    defaults=dict(only_list=None, rename_list=None),
+    ensures={"named": "result._name == name.lower()", "new": "not was_allocated(result)"},
+    raises={"*": {}},
+    note="ModuleUse(name, only_list, rename_list): a new record for one USE statement, named in lower case (may raise on malformed lists)")
+
+contract("proto:ModuleUse.update", trusted=True,
+    types=dict(self="ref:ModuleUse", other="ref:ModuleUse"), modifies=[], ensures={}, raises={"*": {}},
+    note="ModuleUse.update(other): merges the symbols of another USE of the same module into this record (its own fields only)")
+
+contract("fparser.two.symbol_table:ModuleUse.name", prop=True,
+    types=dict(self="ModuleUse"), returns="str", modifies=[], ensures={"is_field": "result == self._name"}, raises=[])
+
+contract("fparser.two.symbol_table:SymbolTable.add_use_symbols",
+    types=dict(self="SymbolTable", name="str", only_list="any", rename_list="any"),
+    defaults=dict(only_list=None, rename_list=None),
+    modifies=["self._modules"],
+    calls={"ModuleUse": "proto:ModuleUse", "self._modules[use.name].update": "proto:ModuleUse.update"},
+    ensures={
+        "recorded_in_this_table": "name.lower() in self._modules",
+        "other_entries_kept": "dict_same_except(self._modules, old(self._modules), name.lower())",
+        "existing_record_is_kept": "implies(name.lower() in old(self._modules), self._modules[name.lower()] == old(self._modules)[name.lower()])",
+        # frame (checked): no other table's module list changes - a USE in an inner scope does not reach its ancestors
+    },
+    raises={"*": {"nothing_recorded": "self._modules == old(self._modules)"}},
+    serves=["C16"],
+)
